@@ -114,18 +114,15 @@ static inline orc_bool orc_once_enter(OrcOnce *once, void **value) {
   }
 
   orc_once_mutex_lock ();
-  /* if the value was currently being initialized then check if we're the
-   * thread that is doing the initialization or not */
-  if (inited == 3) {
-    inited = __sync_val_compare_and_swap(&once->inited, 3, 3);
-
-    /* the other thread initialized the value in the meantime so
-     * we can just return here */
-    if (inited == 1) {
-      *value = once->value;
-      orc_once_mutex_unlock ();
-      return TRUE;
-    }
+  /* whoever holds the mutex decides: the state is 3 until the first holder
+   * has left through orc_once_leave() and 1 afterwards.  This also goes for
+   * the thread that changed 0 to 3 above - another thread may have taken the
+   * mutex first and done the initialization in the meantime */
+  inited = __sync_val_compare_and_swap(&once->inited, 3, 3);
+  if (inited == 1) {
+    *value = once->value;
+    orc_once_mutex_unlock ();
+    return TRUE;
   }
 
   return FALSE;
